@@ -36,3 +36,21 @@ Theorem C03_send_encrypted_only_ciphertext : forall now c t,
       p_text (d_payload d) = t.
 Proof. exact send_encrypted_only_ciphertext. Qed.
 Print Assumptions C03_send_encrypted_only_ciphertext.
+
+(* ---- over every history ----
+   Whatever is sent to a new conversation and whatever the user does (Send, End, SMP, extra key, in any order), a
+   plaintext message leaves only as the direct output of Send(t), carrying that very text, and only at a moment when OTR
+   is switched off or the conversation is in plaintext state without the require-encryption policy: never while it is
+   encrypted, never while it is finished, never under require-encryption, and never later (texts queued while waiting
+   for encryption, the message resent on request, replies built while receiving and the End / SMP / extra-key calls all
+   leave as queries, error messages or encoded messages only). *)
+From OTR Require Import Proto.NoPlain.
+Theorem C03_plaintext_only_from_send_when_allowed : forall who pol key h, all_plain_ok (conv_init who pol key) h.
+Proof. exact no_plaintext_when_encryption_is_due. Qed.
+Print Assumptions C03_plaintext_only_from_send_when_allowed.
+
+(* the single step behind it, for every state whose stored wires are clean (which every reachable state is) *)
+Theorem C03_call_emits_plaintext_only_from_send_when_allowed : forall now c op, SInv c ->
+  let '(c', r) := step now c op in SInv c' /\ plain_ok c op r.
+Proof. exact step_plain. Qed.
+Print Assumptions C03_call_emits_plaintext_only_from_send_when_allowed.
